@@ -48,7 +48,7 @@ def run_fifo(args, prefix, unit, timeout=40):
     return rc, so, written[0]
 
 def run(ctx):
-    rnd = ctx['rnd']; n = 120 if ctx['tier'] == 'quick' else 2000
+    rnd = ctx['rnd']; n = 800 if ctx['tier'] == 'quick' else 2000
     cases = []
     for i in range(n):
         cfg = gen.pipeline_cfg(rnd, want_limit=True, streaming=True)
